@@ -52,6 +52,15 @@ pub open spec fn ix_ok(ix: Seq<usize>, dim: int) -> bool {
   forall|k: int| 0 <= k < ix.len() ==> 1 <= #[trigger] ix[k] <= dim
 }
 
+// position p (0-based) is addressed by one of the first n entries of a 1-based index vector
+pub open spec fn hit(ix: Seq<usize>, n: int, p: int) -> bool {
+  exists|k: int| 0 <= k < n && #[trigger] ix[k] == p + 1
+}
+
+pub open spec fn distinct(ix: Seq<usize>) -> bool {
+  forall|a: int, b: int| 0 <= a < b < ix.len() ==> #[trigger] ix[a] != #[trigger] ix[b]
+}
+
 // number of `true` among the first n entries of a mask
 pub open spec fn cnt(m: Seq<bool>, n: int) -> int
   decreases n,
